@@ -91,6 +91,27 @@ def grid2(tier):
     return out
 
 
+def reactive(tier):
+    """a CA loses its address (fixed: cannot-claim from 254; arbitrary: re-claim of the next address) while a reactive
+    application on the other stack answers that very frame, from inside its delivery callback, with a request - with
+    zero latency the request is processed by the loser while it is still inside the send call of that frame"""
+    out = []
+    for lat in (0, 1000):
+        for aac in (0, 1):
+            for pref in (0x10, 200):
+                for do in ({"op": "send_request", "dp": 0, "pgn": 0xFEDA, "dest": 255}, {"op": "send_request", "dp": 0, "pgn": 0xEE00, "dest": 255},
+                           {"op": "send_request", "dp": 0, "pgn": 0xFECA, "dest": pref}):
+                    for bypass in (False, True):
+                        # A owns / claims `pref`; B (lower NAME) is operational on another address and claims pref at 1.0 s
+                        a = {"name": "A", "lat": lat, "cas": [{"pref": pref, "aac": aac, "bypass": bypass, "name": {"identity_number": 9, "function": 3}}]}
+                        b = {"name": "B", "lat": lat, "cas": [{"pref": 0x55, "aac": 0, "bypass": True, "name": {"identity_number": 5}}],
+                             "react": [{"pgn": 0xEE00, "sa": None, "times": 2, "do": do}]}
+                        ops = [] if bypass else [{"t": 0, "node": "A", "op": "start", "ca": 1, "delay": 0}]
+                        ops.append({"t": 1_000_000, "node": "A", "op": "inject", "id": (6 << 26) | (0xEE << 16) | (0xFF << 8) | pref, "data": [0] * 8})
+                        out.append({"dll": "j1939-21", "nodes": [a, b], "ops": ops, "dur": 3_000_000, "expect": {"settled": False}})
+    return out
+
+
 ORDER = ["identity_number", "manufacturer_code", "ecu_instance", "function_instance", "function", "vehicle_system",
          "vehicle_system_instance", "industry_group"]          # least significant field first
 
